@@ -85,6 +85,28 @@ uint8_t xv_g_dj, xv_g_dk;
                                xv_fcb_data == __CPROVER_old((r)->err_cb_data) && xv_terminated)
 #define XF_SAME(x) ((x) == __CPROVER_old(x))
 
+/* ==== xfwd_handle_term / xfwd_handle_err ============================================================================== */
+/* The only two places where the caller's callback is invoked.  CBMC resolves `relay->err_cb(...)` to every address-taken
+ * function of a compatible type (xfwd_active among them: recursion), so the other jobs REPLACE these two one-liners by
+ * their contracts and jobs relay.xfwd_handle_term / relay.xfwd_handle_err prove the contracts on the real bodies. */
+#define XF_CB_REQUIRES(r) (XF_FRESH(r) && (r)->err_cb == xv_fwd_cb && (r)->err_cb_data == (void *)(r) && XV_RCNT_OK(xv_fcb_calls))
+static void xfwd_handle_term(struct xfwd *relay)
+__CPROVER_requires(XF_CB_REQUIRES(relay))
+__CPROVER_assigns(XF_CB_ASSIGNS)
+__CPROVER_frees(relay)
+/* PO[C20] xfwd_handle_term.callback_once */
+__CPROVER_ensures(XF_CB_ONCE(relay, 0) && xv_fcb_msg == NULL)
+__CPROVER_ensures(xv_cb_frees == __CPROVER_was_freed(relay))
+;
+static void xfwd_handle_err(struct xfwd *relay, const char *msg)
+__CPROVER_requires(XF_CB_REQUIRES(relay))
+__CPROVER_assigns(XF_CB_ASSIGNS)
+__CPROVER_frees(relay)
+/* PO[C20] xfwd_handle_err.callback_once */
+__CPROVER_ensures(XF_CB_ONCE(relay, -1) && xv_fcb_msg == msg)
+__CPROVER_ensures(xv_cb_frees == __CPROVER_was_freed(relay))
+;
+
 /* ==== xfwd_await_input / xfwd_await_output ============================================================================ */
 static void xfwd_await_input(struct xfwd *relay)
 __CPROVER_requires(XF_FRESH(relay) && XF_CONDS_FRESH(relay))
